@@ -1,4 +1,7 @@
 import JF.Lemmas.DerivReal
+import JF.Lemmas.DerivEwald
+import JF.Lemmas.DerivBend
+import Mathlib.MeasureTheory.Integral.IntervalIntegral.FundThmCalculus
 /-!
 # C03 — Reported event rates are the directional derivative of the model energy
 
@@ -7,6 +10,28 @@ driver runs in binary64 against the real classes and the compiled C.
 
 Sign convention throughout: separation = target − active, the ACTIVE unit moves with velocity `v`, so the
 separation at time `t` is `s − t·v` (`V3.subSmul`), and the reported value is `d/dt U(s − t·v)` at `t = 0`.
+
+Proved for ALL inputs in the stated domains (no sampling):
+* `ip_derivative_correct`, `lj_derivative_correct`, `dep_derivative_correct`, `bound_derivative_correct`:
+  the class's `derivative` returns `.ok val` with `HasDerivAt (fun t => U (s − t v)) val 0`, `val` given in closed
+  form (linear in speed and charge product); every constructible parameter set, every standard velocity, every
+  separation except the origin (where `ip_svd_origin` shows the `ZeroDivisionError` outcome);
+* `derivative_rejects_nonstandard` with `stdVel_of_analyseVelocity`: exactly the standard velocities are accepted;
+* `perm_x`, `perm_nsq`, `perm_moved`: direction `d` is the `x` routine on the rotated separation;
+* `bend_derivative_correct`: the three bending values are the time derivatives for unit `i`, `j`, `k` moving, and sum
+  to zero; `bend_derivative_sum_zero`: they sum to zero on EVERY input on which the routine returns;
+* Ewald routine: `ewaldC_eq` (recurrence_spec: the loops with the three trigonometric recurrences and their reset
+  pattern compute the plain octant sum), `ewaldC_odd_x`, `ewaldC_zero_x`, `fourier_part_periodic`,
+  `ewaldC_homogeneous`.
+
+PARTIAL (named so): `ewald_deriv_partial`, `merged_derivative_partial` — the routine's value is the derivative of the
+TRUNCATED Ewald energy (integer ball / octant cut-offs as in the C code, `erfc` any function with the right
+derivative).  The clause "derivative of the fully converged lattice sum, independent of the splitting parameter,
+periodic in the box" is a truncation-error statement about an infinite conditionally convergent sum; it is NOT
+proved here (it is probed numerically by the oracle of `harness/props/c03.py` for the shipped parameter sets inside
+the minimum-image cube).  Also not proved: that the per-direction truncated energies `E_trunc ∘ perm_d` are one and the
+same function of the separation (the `i = 0` Fourier modes are dropped per direction); rounding error of the binary64
+reading (covered by the correspondence run only).
 -/
 namespace JF.C03
 open JF JF.Deriv Real
@@ -285,6 +310,247 @@ theorem bend_derivative_sum_zero (p : Bend ℝ) (v s1 s2 : V3 ℝ) (a b c : ℝ)
       obtain ⟨rfl, rfl, rfl⟩ := h
       have := bend_svd_sum_zero e p _ s1 s2 a' b' c' hr
       rw [← add_mul, ← add_mul, this, zero_mul]
+
+/-! ## merged-image Coulomb potential: the Ewald routine -/
+
+/-- **`recurrence_spec` + loop structure**: in the exact reading the C routine `derivative` computes the plain sums
+`Σ_{n ∈ ball(pc)} T_n(s) + Σ_{octant(fc)} A_ijk sin(iθx) cos(jθy) cos(kθz)`, `θ = 2π s / L`; i.e. after the register
+updates and resets of the three trigonometric recurrences the registers hold `cos(kθ), sin(kθ)`
+(`JF.Deriv.fStep_prefix`, `fLoopK_spec`, `fLoopJ_spec`, `fourierSum_spec`). -/
+theorem ewaldC_eq (p : Ewald ℝ) (sx sy sz : ℝ) :
+    ewaldC (DOps.real e) p sx sy sz
+      = latSum p.pc (posTerm (DOps.real e) p sx sy sz)
+        + octSum p.fc (octTerm p (p.twoPiOverL * sx) (p.twoPiOverL * sy) (p.twoPiOverL * sz)) := by
+  have hD : deltas (DOps.real e) p sx sy sz = Dθ (p.twoPiOverL * sx) (p.twoPiOverL * sy) (p.twoPiOverL * sz) := rfl
+  simp only [ewaldC, hD, fourierSum_spec, posSum_eq, real_ofInt, Int.cast_zero, zero_add]
+
+/-- the TRUNCATED Ewald energy whose `x`-derivative the routine computes: the position-space sum over the integer
+ball of radius `pc` and the Fourier sum over the octant `i ≥ 1, j, k ≥ 0, i²+j²+k² ≤ fc²` (the modes with `i = 0`
+do not depend on `sx` and are left out; multiplicities 1/2/4 are inside `fourier_array`). -/
+noncomputable def ewaldEnergyTrunc (p : Ewald ℝ) (sx sy sz : ℝ) : ℝ :=
+  latSum p.pc (posEnergyTerm e p sx sy sz) + octSum p.fc (fourierEnergyTerm p sx sy sz)
+
+/-- `s` is not a lattice point -/
+def OffLattice (L sx sy sz : ℝ) : Prop := ∀ i j k : ℤ, (latVec L sx sy sz i j k).nsq ≠ 0
+
+theorem construct_facts (fc pc : ℕ) (alpha L : ℝ) (hL : L ≠ 0) :
+    let p := Ewald.construct (DOps.real e) fc pc alpha L
+    p.twoAolRootPi = 2 * p.aol / √π ∧ p.aolSq = p.aol * p.aol ∧ p.twoPiOverL ≠ 0 ∧ p.L = L := by
+  have hpi : √π ≠ 0 := (Real.sqrt_pos.mpr Real.pi_pos).ne'
+  refine ⟨?_, ?_, ?_, rfl⟩
+  · simp only [Ewald.construct, real_ofInt, real_sqrt, real_pi]; push_cast; field_simp
+  · simp only [Ewald.construct]; field_simp
+  · simp only [Ewald.construct, real_ofInt, real_pi]; push_cast
+    exact div_ne_zero (mul_ne_zero two_ne_zero Real.pi_ne_zero) hL
+
+/-- **`ewald_deriv_partial`** (PARTIAL with respect to the property: truncated sums, `erfc` abstract).
+For the struct built by `construct_merged_image_coulomb_potential` (any cut-offs, any `alpha`, any box length
+`L ≠ 0`), any function `erfc` with `erfc' y = −2/√π · exp(−y²)`, and any separation that is not a lattice point, the
+value of the C routine `derivative` is the derivative of the truncated Ewald energy along the motion of the active
+unit in `+x` (separation = target − active, so `sx ↦ sx − x`).
+NOT proved (cannot be, here): that the truncated energy is within the claimed accuracy of the fully converged
+lattice sum `Σ_n 1/|s + nL|` (tin-foil), hence independent of `alpha` and exactly `L`-periodic. -/
+theorem ewald_deriv_partial (fc pc : ℕ) (alpha L : ℝ) (hL : L ≠ 0)
+    (he : ∀ y, HasDerivAt e (-(2 / √π) * Real.exp (-(y * y))) y)
+    (sx sy sz : ℝ) (hs : OffLattice L sx sy sz) :
+    HasDerivAt (fun x => ewaldEnergyTrunc e (Ewald.construct (DOps.real e) fc pc alpha L) (sx - x) sy sz)
+      (ewaldC (DOps.real e) (Ewald.construct (DOps.real e) fc pc alpha L) sx sy sz) 0 := by
+  obtain ⟨h1, h2, h3, h4⟩ := construct_facts e fc pc alpha L hL
+  rw [ewaldC_eq]
+  unfold ewaldEnergyTrunc
+  refine HasDerivAt.add ?_ ?_
+  · exact latSum_hasDerivAt _ (fun x i j k => posEnergyTerm e _ (sx - x) sy sz i j k) _ 0
+      fun i j k => posTerm_hasDerivAt e _ h1 h2 he sx sy sz i j k (by rw [h4]; exact hs i j k)
+  · exact octSum_hasDerivAt _ (fun x i j k => fourierEnergyTerm _ (sx - x) sy sz i j k) _ 0
+      fun i0 j k => fourierTerm_hasDerivAt _ h3 sx sy sz (i0 + 1) j k (Nat.succ_ne_zero i0)
+
+/-- non-vacuity of the hypothesis on `erfc`: the function `1 − 2/√π ∫₀^y exp(−t²) dt` (the complementary error
+function itself) has the required derivative everywhere. -/
+example : ∃ erfc : ℝ → ℝ, erfc 0 = 1 ∧ ∀ y, HasDerivAt erfc (-(2 / √π) * Real.exp (-(y * y))) y := by
+  refine ⟨fun y => 1 + -(2 / √π) * ∫ t in (0 : ℝ)..y, Real.exp (-(t * t)), by simp, fun y => ?_⟩
+  have hc : Continuous fun t : ℝ => Real.exp (-(t * t)) := by fun_prop
+  exact (((hc.integral_hasStrictDerivAt 0 y).hasDerivAt).const_mul _).const_add 1
+
+theorem perm_moved (s : V3 ℝ) (d : ℕ) (x : ℝ) :
+    (s.moved d x).perm d = ⟨(s.perm d).x - x, (s.perm d).y, (s.perm d).z⟩ := by
+  match d with
+  | 0 => rfl
+  | 1 => rfl
+  | (n + 2) => rfl
+
+theorem merged_make_inv {alpha k L : ℝ} {fc pc : ℤ} {m : Merged ℝ}
+    (h : Merged.make (DOps.real e) alpha fc pc k L = .ok m) :
+    k ≠ 0 ∧ 0 < alpha ∧ 0 ≤ fc ∧ 0 ≤ pc ∧
+      m = ⟨k, Ewald.construct (DOps.real e) fc.toNat pc.toNat alpha L⟩ := by
+  unfold Merged.make at h
+  split_ifs at h with h1 h2 h3 h4
+  simp only [real_ofInt, Int.cast_zero, beq_iff_eq] at h1 h2
+  cases h
+  exact ⟨h1, lt_of_not_ge h2, by omega, by omega, rfl⟩
+
+/-- the truncated pair energy seen by direction `d`: `k c₁ c₂ · E_trunc(rotated separation)` -/
+noncomputable def mergedEnergyTrunc (m : Merged ℝ) (d : ℕ) (c1 c2 : ℝ) (s : V3 ℝ) : ℝ :=
+  m.prefactor * c1 * c2 * ewaldEnergyTrunc e m.pot (s.perm d).x (s.perm d).y (s.perm d).z
+
+/-- **C03 for the merged-image Coulomb potential, PARTIAL** (truncated sums, abstract `erfc`; see
+`ewald_deriv_partial`): for every constructible potential, standard velocity, charge pair and separation off the
+lattice, `MergedImageCoulombPotential.derivative` returns the time derivative of `k c₁c₂ E_trunc` along the
+motion of the active unit; direction `d` is reduced to the `x` routine by the cyclic rotation, the result is linear in
+speed and charge product. -/
+theorem merged_derivative_partial {alpha k L : ℝ} {fc pc : ℤ} {m : Merged ℝ}
+    (hm : Merged.make (DOps.real e) alpha fc pc k L = .ok m) (hL : L ≠ 0)
+    (he : ∀ y, HasDerivAt e (-(2 / √π) * Real.exp (-(y * y))) y)
+    {v : V3 ℝ} {d : ℕ} {sp : ℝ} (hv : StdVel v d sp) (s : V3 ℝ) (c1 c2 : ℝ)
+    (hs : OffLattice L (s.perm d).x (s.perm d).y (s.perm d).z) :
+    ∃ val, m.derivative (DOps.real e) v s c1 c2 = .ok val ∧
+      val = k * c1 * c2 * ewaldC (DOps.real e) m.pot (s.perm d).x (s.perm d).y (s.perm d).z * sp ∧
+      HasDerivAt (fun t => mergedEnergyTrunc e m d c1 c2 (s.subSmul v t)) val 0 := by
+  obtain ⟨_, _, _, _, rfl⟩ := merged_make_inv e hm
+  have hU : HasDerivAt (fun x => mergedEnergyTrunc e
+      ⟨k, Ewald.construct (DOps.real e) fc.toNat pc.toNat alpha L⟩ d c1 c2 (s.moved d x))
+      (k * c1 * c2 * ewaldC (DOps.real e) (Ewald.construct (DOps.real e) fc.toNat pc.toNat alpha L)
+        (s.perm d).x (s.perm d).y (s.perm d).z) 0 := by
+    have := (ewald_deriv_partial e fc.toNat pc.toNat alpha L hL he _ _ _ hs).const_mul (k * c1 * c2)
+    simpa only [mergedEnergyTrunc, perm_moved] using this
+  have h := timeDerivative_hasDerivAt e
+    (U := mergedEnergyTrunc e ⟨k, Ewald.construct (DOps.real e) fc.toNat pc.toNat alpha L⟩ d c1 c2)
+    (svd := fun d' => .ok (Merged.svd (DOps.real e) ⟨k, Ewald.construct (DOps.real e) fc.toNat pc.toNat alpha L⟩ d' s c1 c2))
+    hv rfl hU
+  exact ⟨_, h.1, rfl, h.2⟩
+
+/-- non-vacuity of the hypotheses: the shipped parameters, unit box, separation `(1/2, 0, 0)` -/
+example : (∃ m, Merged.make (DOps.real e) 3.45 6 2 1 1 = .ok m) ∧ OffLattice 1 (1 / 2) 0 0 := by
+  constructor
+  · refine ⟨⟨1, Ewald.construct (DOps.real e) 6 2 3.45 1⟩, ?_⟩
+    unfold Merged.make
+    norm_num
+    rfl
+  · intro i j k
+    have h : ((1 : ℝ) / 2 + i * 1) ≠ 0 := by
+      intro h0
+      have h2 : ((2 * i + 1 : ℤ) : ℝ) = 0 := by push_cast; linarith
+      have : (2 * i + 1 : ℤ) = 0 := by exact_mod_cast h2
+      omega
+    have := mul_self_pos.mpr h
+    simp only [latVec, V3.nsq]
+    nlinarith [mul_self_nonneg ((0 : ℝ) + j * 1), mul_self_nonneg ((0 : ℝ) + k * 1)]
+
+/-- **`odd_x`**: the routine's value is odd in the component along the direction of motion — exactly, for every
+struct (any cut-offs and parameters): the integer ball is symmetric under `i ↦ −i` and the Fourier part is a
+sine series in `sx`. -/
+theorem ewaldC_odd_x (p : Ewald ℝ) (sx sy sz : ℝ) :
+    ewaldC (DOps.real e) p (-sx) sy sz = -ewaldC (DOps.real e) p sx sy sz := by
+  rw [ewaldC_eq, ewaldC_eq]
+  have h1 : latSum p.pc (posTerm (DOps.real e) p (-sx) sy sz)
+      = -latSum p.pc (posTerm (DOps.real e) p sx sy sz) := by
+    rw [← latSum_neg_reflect]
+    congr 1; funext i j k; exact posTerm_neg e p sx sy sz i j k
+  have h2 : octSum p.fc (octTerm p (p.twoPiOverL * -sx) (p.twoPiOverL * sy) (p.twoPiOverL * sz))
+      = -octSum p.fc (octTerm p (p.twoPiOverL * sx) (p.twoPiOverL * sy) (p.twoPiOverL * sz)) := by
+    rw [← octSum_neg]
+    congr 1; funext i j k; exact octTerm_neg p _ sx _ _ i j k
+  rw [h1, h2]; ring
+
+/-- in particular the routine vanishes (exactly, in the exact reading) on the symmetry plane `sx = 0` -/
+theorem ewaldC_zero_x (p : Ewald ℝ) (sy sz : ℝ) : ewaldC (DOps.real e) p 0 sy sz = 0 := by
+  have := ewaldC_odd_x e p 0 sy sz
+  rw [neg_zero] at this
+  linarith
+
+/-- **the Fourier part is periodic in the box** (all three directions, any integer number of boxes); the
+truncated position-space part is not — its periodicity is a statement about the converged sum. -/
+theorem fourier_part_periodic (fc pc : ℕ) (alpha L : ℝ) (hL : L ≠ 0) (sx sy sz : ℝ) (a b c : ℤ) :
+    let p := Ewald.construct (DOps.real e) fc pc alpha L
+    octSum p.fc (octTerm p (p.twoPiOverL * (sx + a * L)) (p.twoPiOverL * (sy + b * L)) (p.twoPiOverL * (sz + c * L)))
+      = octSum p.fc (octTerm p (p.twoPiOverL * sx) (p.twoPiOverL * sy) (p.twoPiOverL * sz)) := by
+  intro p
+  have hw : ∀ (n : ℕ) (s : ℝ) (m : ℤ), (n : ℝ) * (p.twoPiOverL * (s + m * L))
+      = n * (p.twoPiOverL * s) + ((n * m : ℤ) : ℝ) * (2 * π) := by
+    intro n s m
+    have : p.twoPiOverL = 2 * π / L := by
+      simp only [p, Ewald.construct, real_ofInt, real_pi]; push_cast; ring
+    rw [this]; push_cast; field_simp
+  congr 1; funext i j k
+  simp only [octTerm, hw, Real.sin_add_int_mul_two_pi, Real.cos_add_int_mul_two_pi]
+
+/-- **homogeneity in the box length**: `derivative(s; L) = L⁻² · derivative(s/L; 1)` for the same `alpha` and
+cut-offs — every box length reduces to the unit box. -/
+theorem ewaldC_homogeneous (fc pc : ℕ) (alpha L : ℝ) (hL : 0 < L) (sx sy sz : ℝ) :
+    ewaldC (DOps.real e) (Ewald.construct (DOps.real e) fc pc alpha L) sx sy sz
+      = 1 / L ^ 2 * ewaldC (DOps.real e) (Ewald.construct (DOps.real e) fc pc alpha 1) (sx / L) (sy / L) (sz / L) := by
+  rw [ewaldC_eq, ewaldC_eq, mul_add, ← latSum_mul, ← octSum_mul]
+  congr 1
+  · congr 1; funext i j k; exact posTerm_scale e fc pc alpha L hL sx sy sz i j k
+  · congr 1; funext i j k; exact octTerm_scale e fc pc alpha L hL sx sy sz i j k
+
+/-! ## bending: the three per-unit derivatives -/
+
+theorem dCos_swap (s1 s2 : V3 ℝ) (d : ℕ) :
+    s1.get d / √(s1.nsq) / √(s2.nsq) - cosAngle s1 s2 * s2.get d / √(s2.nsq) ^ 2 = dCos s2 s1 d := by
+  simp only [dCos, cosAngle, V3.dot]; ring
+
+/-- value of `BendingPotential.standard_velocity_derivative` for two non-zero, non-collinear separations -/
+theorem bend_svd_eq (p : Bend ℝ) (d : ℕ) (s1 s2 : V3 ℝ) (h1 : s1.nsq ≠ 0) (h2 : s2.nsq ≠ 0)
+    (hlo : -1 < cosAngle s1 s2) (hhi : cosAngle s1 s2 < 1) :
+    let K := p.prefactor * (arccos (cosAngle s1 s2) - p.eqAngle) * (-1 / sin (arccos (cosAngle s1 s2)))
+    p.svd (DOps.real e) d s1 s2
+      = .ok (K * dCos s1 s2 d, -(K * dCos s1 s2 d) - K * dCos s2 s1 d, K * dCos s2 s1 d) := by
+  intro K
+  have hn1 : √(s1.nsq) ≠ 0 := (Real.sqrt_pos.mpr (lt_of_le_of_ne s1.nsq_nonneg (Ne.symm h1))).ne'
+  have hn2 : √(s2.nsq) ≠ 0 := (Real.sqrt_pos.mpr (lt_of_le_of_ne s2.nsq_nonneg (Ne.symm h2))).ne'
+  have hpos : 0 < 1 - cosAngle s1 s2 ^ 2 := by nlinarith
+  have hsin : sin (arccos (cosAngle s1 s2)) ≠ 0 := by
+    rw [Real.sin_arccos]; exact (Real.sqrt_pos.mpr hpos).ne'
+  have hc : pySum (DOps.real e) [s1.x * s2.x, s1.y * s2.y, s1.z * s2.z] / √(s1.nsq) / √(s2.nsq) = cosAngle s1 s2 := by
+    rw [pySum3_real]; rfl
+  have hacos : pyAcos (DOps.real e) (cosAngle s1 s2) = .ok (arccos (cosAngle s1 s2)) := by
+    simp only [pyAcos, real_ofInt, real_acos]; push_cast
+    rw [if_neg (not_or.mpr ⟨not_lt.mpr hlo.le, not_lt.mpr hhi.le⟩)]
+  have hsq1 : √(s1.nsq) ^ (((2 : ℤ) : ℝ)) = √(s1.nsq) ^ 2 := by push_cast; exact Real.rpow_two _
+  have hsq2 : √(s2.nsq) ^ (((2 : ℤ) : ℝ)) = √(s2.nsq) ^ 2 := by push_cast; exact Real.rpow_two _
+  have hq1 : √(s1.nsq) ^ 2 ≠ 0 := pow_ne_zero 2 hn1
+  have hq2 : √(s2.nsq) ^ 2 ≠ 0 := pow_ne_zero 2 hn2
+  simp only [Bend.svd, norm_real, bind, Except.bind, pure, Except.pure, pyDiv_real e _ _ hn1, pyDiv_real e _ _ hn2,
+    hc, hacos, real_sin, pyDiv_real e _ _ hsin, pyPow_real, real_ofInt, hsq1, hsq2, pyDiv_real e _ _ hq1,
+    pyDiv_real e _ _ hq2, dCos_swap]
+  simp only [Int.reduceNeg, Int.cast_neg, Int.cast_one, K, dCos]
+
+/-- `s + t v` -/
+def _root_.JF.Deriv.V3.addSmul (s v : V3 ℝ) (t : ℝ) : V3 ℝ := s.subSmul v (-t)
+
+/-- **C03 for the bending potential**: for two non-zero, non-collinear separations `s₁ = r_i − r_j`, `s₂ = r_k − r_j`
+and a standard velocity, the three reported values are the time derivatives of `k/2 (φ − φ₀)²` when unit `i`,
+unit `j`, unit `k` respectively moves with that velocity; they sum to zero. -/
+theorem bend_derivative_correct (p : Bend ℝ) {v : V3 ℝ} {d : ℕ} {sp : ℝ} (hv : StdVel v d sp) (s1 s2 : V3 ℝ)
+    (h1 : s1.nsq ≠ 0) (h2 : s2.nsq ≠ 0) (hlo : -1 < cosAngle s1 s2) (hhi : cosAngle s1 s2 < 1) :
+    ∃ a b c, p.derivative (DOps.real e) v s1 s2 = .ok (a, b, c) ∧ a + b + c = 0 ∧
+      HasDerivAt (fun t => bendEnergy p.prefactor p.eqAngle (s1.addSmul v t) s2) a 0 ∧
+      HasDerivAt (fun t => bendEnergy p.prefactor p.eqAngle (s1.subSmul v t) (s2.subSmul v t)) b 0 ∧
+      HasDerivAt (fun t => bendEnergy p.prefactor p.eqAngle s1 (s2.addSmul v t)) c 0 := by
+  have hsvd := bend_svd_eq e p d s1 s2 h1 h2 hlo hhi
+  simp only at hsvd
+  set K := p.prefactor * (arccos (cosAngle s1 s2) - p.eqAngle) * (-1 / sin (arccos (cosAngle s1 s2))) with hK
+  refine ⟨K * dCos s1 s2 d * sp, (-(K * dCos s1 s2 d) - K * dCos s2 s1 d) * sp, K * dCos s2 s1 d * sp, ?_, by ring, ?_, ?_, ?_⟩
+  · simp [Bend.derivative, analyseVelocity_of_stdVel e hv, hsvd, bind, Except.bind, pure, Except.pure]
+  · have h := bendEnergy_hasDerivAt p.prefactor p.eqAngle s1 s2 d (-sp) 0 h1 h2 hlo hhi
+    simp only [zero_mul, moved_zero] at h
+    simp only [V3.addSmul, subSmul_of_stdVel hv, mul_neg, ← neg_mul]
+    refine h.congr_deriv ?_
+    rw [← hK]; ring
+  · have h := bendEnergy_hasDerivAt p.prefactor p.eqAngle s1 s2 d sp sp h1 h2 hlo hhi
+    simp only [subSmul_of_stdVel hv]
+    refine h.congr_deriv ?_
+    rw [← hK]; ring
+  · have h := bendEnergy_hasDerivAt p.prefactor p.eqAngle s1 s2 d 0 (-sp) h1 h2 hlo hhi
+    simp only [zero_mul, moved_zero] at h
+    simp only [V3.addSmul, subSmul_of_stdVel hv, mul_neg, ← neg_mul]
+    refine h.congr_deriv ?_
+    rw [← hK]; ring
+
+/-- non-vacuity: a right angle, `s₁ = (1,0,0)`, `s₂ = (0,1,0)` -/
+example : (⟨1, 0, 0⟩ : V3 ℝ).nsq ≠ 0 ∧ (⟨0, 1, 0⟩ : V3 ℝ).nsq ≠ 0 ∧
+    -1 < cosAngle ⟨1, 0, 0⟩ ⟨0, 1, 0⟩ ∧ cosAngle ⟨1, 0, 0⟩ ⟨0, 1, 0⟩ < 1 := by
+  simp [V3.nsq, cosAngle, V3.dot]
 
 /-- a velocity that is not standard is rejected, whatever the rest of the input -/
 theorem derivative_rejects_nonstandard (v : V3 ℝ) (svd : ℕ → Res ℝ)
